@@ -115,6 +115,9 @@ fn main() {
     report::install_panic_hook();
     match property.as_str() {
         "C01" => mon::c01::run(&mut ctx),
+        "C15" => mon::c15::run(&mut ctx),
+        "C14" => mon::c14::run(&mut ctx),
+        "C13" => mon::c13::run(&mut ctx),
         "C10" => mon::c10::run(&mut ctx),
         "C09" => mon::c09::run(&mut ctx),
         "C09CHILD" => mon::c09::child(&mut ctx),
